@@ -189,7 +189,7 @@ func vhBuildGroupMapDeep(storage SlabStorage, addr Address, b *vDigesterBuilder,
 }
 
 //vh:prop C12 C05 C09 C02 C06 C13 C03
-//vh:param singles 2 4
+//vh:param singles 2 3
 //vh:param gsize 3 3
 //vh:param symT 0 1
 func VH_C12_GroupStep() {
